@@ -171,14 +171,34 @@ def entry_point(name):
     return {"Calendar": icalendar.Calendar, "Component": icalendar.cal.Component, "Event": icalendar.Event}[name]
 
 
+CPU_BUDGET_S = 120
+
+
+class CpuBudgetExceeded(BaseException):
+    pass
+
+
+def _cpu_fire(signum, frame):
+    raise CpuBudgetExceeded()
+
+
 def guarded(clock, fn):
-    """-> ("value", v) | ("ValueError", msg) | ("escape", type, msg) | ("budget", steps)"""
+    """-> ("value", v) | ("ValueError", msg) | ("escape", type, msg) | ("budget", steps)
+
+    Two clocks: the deterministic step clock (function-entry events, budget 10^7) and - because a loop that calls no Python
+    function produces no such event - the CPU time consumed by this process (ITIMER_PROF, 120 s ~ ten times what 10^7 events
+    cost on this machine).  CPU time, unlike wall-clock time, does not grow with the load of the machine."""
+    import signal
+    old = signal.signal(signal.SIGPROF, _cpu_fire)
+    signal.setitimer(signal.ITIMER_PROF, CPU_BUDGET_S, 1.0)
     clock.start(BUDGET)
     try:
         v = fn()
         return ("value", v)
     except BudgetExceeded:
         return ("budget", clock.count)
+    except CpuBudgetExceeded:
+        return ("budget", f"{CPU_BUDGET_S} s CPU")
     except ValueError as e:
         if clock.exceeded:
             return ("budget", clock.count)
@@ -188,7 +208,9 @@ def guarded(clock, fn):
             return ("budget", clock.count)
         return ("escape", type(e).__name__, str(e)[:300])
     finally:
-        clock.stop()
+        clock.stop()                                # first: signal.signal() is a Python function and would trip an exceeded clock
+        signal.setitimer(signal.ITIMER_PROF, 0)
+        signal.signal(signal.SIGPROF, old)
 
 
 def check_case(ctx, case):
@@ -204,7 +226,7 @@ def check_case(ctx, case):
     r = guarded(clock, lambda: cls.from_ical(data, multiple=bool(multiple)))
     ctx.counters["max-steps"] = max(ctx.counters.get("max-steps", 0), clock.count)
     if r[0] == "budget":
-        ctx.fail("step-budget-exceeded", observed=f"> {BUDGET} function-entry events in from_ical", expected=f"<= {BUDGET} for an input of {len(data)} octets",
+        ctx.fail("step-budget-exceeded", observed=f"> {BUDGET} function-entry events (or > {CPU_BUDGET_S} s CPU) in from_ical: {r[1]}", expected=f"<= {BUDGET} for an input of {len(data)} octets",
                  key=classify_budget(prov, data))
         return
     if r[0] == "escape":
